@@ -198,6 +198,133 @@ Proof.
   - split; [apply session_ref | apply session_no_panic].
 Qed.
 
+(* ---- sessions over the API without Each: Next, Rest, Err, Reset, Scanner.Split ----
+   [grunx]: the same machine with Err (the latch compared with io.EOF), Reset (to a fresh reader of
+   the session's input src) and Scanner.Split through the generated methods.  Each is left out:
+   the generated Each takes a pure callback and does not return the tokens it passed on. *)
+Inductive goutx :=
+| GXNext (ok : bool) (txt : list Z) (cmpl : bool)
+| GXRest (r : list Z)
+| GXErr (is_eof : bool)
+| GXReset
+| GXSplit (toks : list (list Z)) (txt : list Z) (cmpl : bool)
+| GXPanic (k : panic_kind)
+| GXFuel
+| GXNotTranslated.
+
+Definition enc_outx (o : M.sc_outx) : goutx :=
+  match o with
+  | XRNext ok t c => GXNext ok (zs t) c
+  | XRRest r => GXRest (zs r)
+  | XRErr b => GXErr b
+  | XRReset => GXReset
+  | XRSplit toks t c => GXSplit (map zs toks) (zs t) c
+  | XREach _ _ _ => GXNotTranslated
+  | XRPanic => GXPanic PIndex
+  end.
+
+Definition no_each (o : M.sc_opx) : bool := match o with XEach _ => false | _ => true end.
+
+Fixpoint grunx (fuel : nat) (src : list Z) (b c : list Z) (s : Z) (e : go_error) (ops : list M.sc_opx) : list goutx :=
+  match ops with
+  | [] => []
+  | XNext :: ops' =>
+    match G.Next_ b c s e bb_Reset rd_ReadByte bb_WriteByte bb_Write fuel with
+    | Ok (ok, b', c', s', e') =>
+      match G.Text c' bb_String with
+      | Ok (txt, c'') => GXNext ok txt (G.Complete s') :: grunx fuel src b' c'' s' e' ops'
+      | Panic k => [GXPanic k]
+      | OutOfFuel => [GXFuel]
+      end
+    | Panic k => [GXPanic k]
+    | OutOfFuel => [GXFuel]
+    end
+  | XRest :: ops' =>
+    match G.Rest b c s e bb_Reset with
+    | Ok (r, c', s', e') => GXRest r :: grunx fuel src [] c' s' e' ops'
+    | Panic k => [GXPanic k]
+    | OutOfFuel => [GXFuel]
+    end
+  | XErr :: ops' => GXErr (go_err_eqb (G.Err e) EEOF) :: grunx fuel src b c s e ops'
+  | XReset :: ops' =>
+    match G.Reset b c s e src rd_Reset bb_Reset with
+    | Ok (b', c', s', e') => GXReset :: grunx fuel src b' c' s' e' ops'
+    | Panic k => [GXPanic k]
+    | OutOfFuel => [GXFuel]
+    end
+  | XSplit :: ops' =>
+    match G.Scanner_Split b c s e bb_Reset rd_ReadByte bb_WriteByte bb_Write bb_String fuel with
+    | Ok (toks, b', c', s', e') =>
+      match G.Text c' bb_String with
+      | Ok (txt, c'') => GXSplit toks txt (G.Complete s') :: grunx fuel src b' c'' s' e' ops'
+      | Panic k => [GXPanic k]
+      | OutOfFuel => [GXFuel]
+      end
+    | Panic k => [GXPanic k]
+    | OutOfFuel => [GXFuel]
+    end
+  | XEach _ :: _ => [GXNotTranslated]
+  end.
+
+Lemma split_loop_inp : forall f sc toks sc' toks', H.split_loop f sc toks = Some (sc', toks') ->
+  (length (M.inp sc') <= length (M.inp sc))%nat /\ (bytes_ok (M.inp sc) -> bytes_ok (M.inp sc')).
+Proof.
+  induction f as [|f IH]; intros sc toks sc' toks' E; cbn [H.split_loop] in E; [discriminate|].
+  destruct (H.next sc) as [[sc1 ok]|] eqn:N; [|discriminate].
+  assert (N' : M.next sc = Some (sc1, ok)) by (rewrite next_hand; exact N).
+  destruct (next_inp _ _ _ N') as [L B].
+  destruct ok.
+  - destruct (IH _ _ _ _ E) as [L1 B1]. split; [lia | auto].
+  - inversion E; subst. split; assumption.
+Qed.
+
+Theorem C16_runx_is_source : forall ops src sc n fuel,
+  forallb no_each ops = true ->
+  bytes_ok src -> bytes_ok (M.inp sc) ->
+  (length src <= n)%nat -> (length (M.inp sc) <= n)%nat -> (n + 2 <= fuel)%nat ->
+  grunx fuel (zs src) (zs (M.inp sc)) (zs (M.cur sc)) (st_z (M.st sc)) (err_z (M.eof sc)) ops
+  = map enc_outx (M.run_opsx src sc ops).
+Proof.
+  induction ops as [|op ops IH]; intros src sc n fuel Hne Hbs Hb Hns Hn Hf; [reflexivity|].
+  cbn [forallb] in Hne. apply andb_true_iff in Hne. destruct Hne as [Ho Hne].
+  destruct op; cbn [grunx M.run_opsx]; try discriminate Ho.
+  - rewrite C16_next_is_source by (try assumption; lia).
+    destruct (M.next sc) as [[sc' ok]|] eqn:N; [|reflexivity].
+    cbn [enc_next]. rewrite C16_text_is_source, C16_complete_is_source.
+    destruct (next_inp _ _ _ N) as [L B].
+    cbn [map enc_outx]. f_equal. apply (IH src sc' n); auto; lia.
+  - rewrite C16_rest_is_source. destruct (M.rest sc) as [sc' r] eqn:R.
+    cbn [fst snd map enc_outx]. f_equal.
+    assert (I : M.inp sc' = []) by (unfold M.rest in R; inversion R; reflexivity).
+    change (@nil Z) with (zs []). rewrite <- I. apply (IH src sc' n); auto; rewrite I; [constructor | simpl; lia].
+  - destruct (C16_err_is_source sc) as (_ & E & _). rewrite E.
+    cbn [map enc_outx]. f_equal. apply (IH src sc n); auto.
+  - rewrite C16_reset_is_source. unfold enc_sc.
+    cbn [map enc_outx]. f_equal. apply (IH src (M.reset_sc sc src) n); auto.
+  - rewrite C16_scanner_split_is_source by (try assumption; lia).
+    destruct (M.scanner_split sc) as [[sc' toks]|] eqn:S; [|reflexivity].
+    rewrite C16_text_is_source, C16_complete_is_source.
+    cbn [map enc_outx]. f_equal.
+    rewrite scanner_split_hand in S. unfold H.scanner_split in S.
+    destruct (split_loop_inp _ _ _ _ _ S) as [L B].
+    apply (IH src sc' n); auto; lia.
+Qed.
+
+(* every session of Next / Rest / Err / Reset / Scanner.Split on a new scanner, through the
+   generated methods: accepted by the reference checker of the whole API, no call panics *)
+Theorem C16_sessionx_source_proof : forall s ops, bytes_ok s -> forallb no_each ops = true ->
+  exists b c st e outs,
+    G.NewScanner (zs s) new_reader [] = Ok (b, c, st, e) /\
+    grunx (length s + 2) (zs s) b c st e ops = map enc_outx outs /\
+    session_okx s ops outs = true /\ ~ In XRPanic outs.
+Proof.
+  intros s ops Hb Hne.
+  exists (zs s), [], 1, ENil, (M.run_opsx s (M.new_scanner s) ops).
+  split; [reflexivity|]. split.
+  - apply (C16_runx_is_source ops s (M.new_scanner s) (length s)); auto; simpl; lia.
+  - split; [apply sessionx_ref | apply sessionx_no_panic].
+Qed.
+
 Print Assumptions C16_newscanner_is_source.
 Print Assumptions C15_split_join_source_proof.
 Print Assumptions C15_split_quote_source_proof.
@@ -205,3 +332,5 @@ Print Assumptions C15_posix_source_proof.
 Print Assumptions C16_ref_source_proof.
 Print Assumptions C16_run_is_source.
 Print Assumptions C16_session_source_proof.
+Print Assumptions C16_runx_is_source.
+Print Assumptions C16_sessionx_source_proof.
